@@ -324,6 +324,15 @@ func devEq(a, b map[string]string) bool {
 func monitorC11(c fw.Case, outs []string) []string {
 	var fails []string
 	for _, st := range steps(c, outs) {
+		// whenever a proposal is recorded as apply-FAILED, the applied index has passed it: later
+		// transactions of the target proceed (this holds after every step, failed writes included)
+		for key, p := range st.after.Prop {
+			if p.Apply == "f" {
+				if cfg := st.after.Cfg[p.Target]; cfg == nil || cfg.Applied < p.Index {
+					fails = append(fails, fmt.Sprintf("refusal-blocks: proposal %s is apply-FAILED but the applied index of its target is behind it after %q: later changes of the target are stuck", key, st.line))
+				}
+			}
+		}
 		if !strings.HasPrefix(st.actor, "prop:") || strings.Contains(st.line, "inject=") {
 			continue
 		}
@@ -341,10 +350,17 @@ func monitorC11(c fw.Case, outs []string) []string {
 			continue
 		}
 		attempted := true
+		att := 0
+		if m := attRe.FindString(outsHead(st.after)); m != "" {
+			att = atoi(strings.TrimPrefix(m, " att="))
+		}
 		switch {
-		case dev == "retry" || dev == "wait":
-			if !txEq(st.before, st.after) || !propEq(st.before, st.after) || !cfgEq(st.before, st.after, -1) ||
-				!devEq(st.before.Dev[t], st.after.Dev[t]) {
+		case strings.HasPrefix(dev, "retry") || dev == "wait":
+			if att > 0 && strings.HasPrefix(dev, "retry") && !strings.Contains(st.after.Head, "err=1") {
+				fails = append(fails, fmt.Sprintf("transient-dropped: %q reached the device, got a transient answer, and returned no error: nothing re-queues the change", st.line))
+			}
+			if att > 0 && (!txEq(st.before, st.after) || !propEq(st.before, st.after) || !cfgEq(st.before, st.after, -1) ||
+				!devEq(st.before.Dev[t], st.after.Dev[t])) {
 				fails = append(fails, fmt.Sprintf("transient: %q changed a record or the device", st.line))
 			}
 			if pa.Apply == "f" {
@@ -368,6 +384,8 @@ func monitorC11(c fw.Case, outs []string) []string {
 	}
 	return fails
 }
+
+func outsHead(s *State) string { return " " + s.Head + " " }
 
 // drained returns the state of every `v2.drain` answer.
 func drained(c fw.Case, outs []string) []*State {
